@@ -104,6 +104,54 @@ func init() {
 			e.P("def %sCalls : List String := %s", c[0], LeanStrList(trackedCalls(e, FuncDecl(roles, c[1], "Close"), c[0], []string{c[2]})))
 		}
 
+		// what each role acquires and what its Close hands back: the WHOLE call, arguments included (a
+		// release that names another handle than the one acquired releases nothing)
+		e.P("/-- session_roles.go: per role (as… function, Close of its role object): the acquiring statement and the releasing call, whole, with arguments -/")
+		var hs []string
+		for _, c := range [][5]string{{"tcp", "asTCPConsumer", "stream.StartConsume", "tcpConsumer", "c.source.StopConsume"},
+			{"udp", "asUDPConsumer", "stream.StartConsume", "udpConsumer", "c.source.StopConsume"},
+			{"multicast", "asMulticastConsumer", "ma.AddMember", "multicastConsumer", "c.source.Multicastable().ReleaseMember"},
+			{"pusher", "asTCPPusher", "media.Regist", "tcpPushStream", "media.Unregist"}} {
+			acq := wholeCalls(FuncDecl(roles, "Session", c[1]), c[2])
+			rel := wholeCalls(FuncDecl(roles, c[3], "Close"), c[4])
+			if len(acq) != 1 || len(rel) != 1 {
+				e.Unknown("roleHandles:" + c[0])
+			}
+			hs = append(hs, "("+LeanStr(c[0])+", "+LeanStrList(acq)+", "+LeanStrList(rel)+")")
+		}
+		e.P("def roleHandles : List (String × List String × List String) := [%s]", strings.Join(hs, ", "))
+		// what the role objects are built from (the handle the release names must be the one stored here)
+		e.P("/-- session_roles.go: the composite literals the as… functions build their role objects from -/")
+		var lits []string
+		for _, fn := range []string{"asTCPConsumer", "asUDPConsumer", "asMulticastConsumer", "asTCPPusher"} {
+			if fd := FuncDecl(roles, "Session", fn); fd != nil {
+				ast.Inspect(fd.Body, func(n ast.Node) bool {
+					if cl, ok := n.(*ast.CompositeLit); ok {
+						t := strings.Join(strings.Fields(Src(cl.Type)), "")
+						if t == "tcpConsumer" || t == "udpConsumer" || t == "multicastConsumer" || t == "tcpPushStream" {
+							lits = append(lits, fn+": "+strings.Join(strings.Fields(Src(cl)), " "))
+						}
+					}
+					return true
+				})
+			} else {
+				e.Unknown("roleLiterals:" + fn)
+			}
+		}
+		e.P("def roleLiterals : List String := %s", LeanStrList(lits))
+
+		// the member registry of the multicast proxy: the guards of AddMember / ReleaseMember and what they do
+		mp := Parse("service/rtsp/multicast_proxy.go")
+		e.P("/-- multicast_proxy.go AddMember / ReleaseMember: the `if` conditions, in order, and the tracked calls -/")
+		e.P("def proxyAddConds : List String := %s", LeanStrList(Conds(FuncDecl(mp, "multicastProxy", "AddMember"))))
+		e.P("def proxyReleaseConds : List String := %s", LeanStrList(Conds(FuncDecl(mp, "multicastProxy", "ReleaseMember"))))
+		e.P("def proxyAddCalls : List String := %s", LeanStrList(trackedCalls(e, FuncDecl(mp, "multicastProxy", "AddMember"), "proxyAddCalls",
+			[]string{"append", "stream.StartConsume", "net.ListenUDP"})))
+		e.P("def proxyReleaseCalls : List String := %s", LeanStrList(trackedCalls(e, FuncDecl(mp, "multicastProxy", "ReleaseMember"), "proxyReleaseCalls",
+			[]string{"append", "proxy.close"})))
+		e.P("def proxyCloseCalls : List String := %s", LeanStrList(trackedCalls(e, FuncDecl(mp, "multicastProxy", "close"), "proxyCloseCalls",
+			[]string{"stream.StopConsume", "proxy.udpConn.Close", "m.Close"})))
+
 		// method strings and status codes
 		var ms []string
 		for _, m := range []string{"MethodOptions", "MethodDescribe", "MethodAnnounce", "MethodSetup", "MethodPlay", "MethodPause",
@@ -685,4 +733,32 @@ func deferCalls(e *Emitter, fd *ast.FuncDecl, what string, tracked []string) []s
 	}
 	e.Unknown(what)
 	return nil
+}
+
+// wholeCalls: the statements / calls of fd whose called function is `fun`, whole (an assignment of the
+// result included), whitespace-normalised, in source order
+func wholeCalls(fd *ast.FuncDecl, fun string) []string {
+	var out []string
+	if fd == nil || fd.Body == nil {
+		return out
+	}
+	norm := func(n ast.Node) string { return strings.Join(strings.Fields(Src(n)), " ") }
+	seen := map[*ast.CallExpr]bool{}
+	ast.Inspect(fd.Body, func(n ast.Node) bool {
+		switch x := n.(type) {
+		case *ast.AssignStmt:
+			for _, r := range x.Rhs {
+				if c, ok := r.(*ast.CallExpr); ok && strings.Join(strings.Fields(Src(c.Fun)), "") == fun {
+					seen[c] = true
+					out = append(out, norm(x))
+				}
+			}
+		case *ast.CallExpr:
+			if !seen[x] && strings.Join(strings.Fields(Src(x.Fun)), "") == fun {
+				out = append(out, norm(x))
+			}
+		}
+		return true
+	})
+	return out
 }
